@@ -4,8 +4,8 @@ import market_checks
 import runner_props
 
 PROP = "C06"
-LEAN_MODULES = ["PamsProps.C06", "PamsProps.C06R", "PamsProps.SimE2E"]
-NAMESPACES = ["Pams.C06", "Pams.C06R", "Pams.C06"]
+LEAN_MODULES = ["PamsProps.C06", "PamsProps.C06R", "PamsProps.SimE2E", "PamsProps.SrcTick"]
+NAMESPACES = ["Pams.C06", "Pams.C06R", "Pams.C06", "Pams.C06"]
 DRIVERS = ["Market", "Runner", "Sim"]
 TRUSTED = [
     "series are modelled as current slot + list of past slots; Python's pre-allocated slots beyond `time` are unobservable through the getters (refusal is checked on every getter)",
